@@ -28,15 +28,32 @@ impl<'buf, IO: Io> Connection<'_, 'buf, IO> {
         {
             return Err(Error::InvalidRequest);
         }
-        let mut buffer = [0u8; CONTROL_PACKET_LEN];
-        let packet = MqttSerializer::encode(&mut buffer, &disconnect)?;
-        self.session.runtime.require_packet_size(packet.len())?;
         // A cancelled operation may have left a packet half written: DISCONNECT must not start
         // inside it.
         self.finish_in_progress().await?;
-        let mut remaining = packet;
+        // The plain forms fit the control-packet buffer. A DISCONNECT with properties does not: it
+        // is encoded in the free tail of the TX buffer, like CONNECT and QoS 0 PUBLISH.
+        let mut small = [0u8; CONTROL_PACKET_LEN];
+        let (in_arena, offset, len) =
+            match MqttSerializer::encode_with_offset(&mut small, &disconnect) {
+                Ok((offset, packet)) => (false, offset, packet.len()),
+                Err(_) => {
+                    let (offset, len) = self.session.data.outbound.encode_packet(&disconnect)?;
+                    (true, offset, len)
+                }
+            };
+        self.session.runtime.require_packet_size(len)?;
+        let mut sent = 0;
         let mut result = Ok(());
-        while !remaining.is_empty() {
+        while sent < len {
+            let remaining = if in_arena {
+                self.session
+                    .data
+                    .outbound
+                    .retained_packet(offset + sent, len - sent)
+            } else {
+                &small[offset + sent..offset + len]
+            };
             match self.io.write(remaining).await {
                 Ok(0) => {
                     result = Err(Error::WriteZero);
@@ -46,7 +63,7 @@ impl<'buf, IO: Io> Connection<'_, 'buf, IO> {
                     // Once any byte of the DISCONNECT is on the wire nothing else may follow it,
                     // even if this future is dropped before the rest is written.
                     self.handle_disconnect();
-                    remaining = &remaining[written..];
+                    sent += written;
                 }
                 Err(err) => {
                     result = Err(Error::Transport(err));
